@@ -91,8 +91,9 @@ structure SpecSt where
   /-- connected senders according to the events -/
   peers : List Peer
   obls : List Obl
-  /-- (bundle tag, peer endpoint): algorithm-chosen transmissions that succeeded while the node holds the bundle -/
-  okSent : List (Nat × Eid)
+  /-- (bundle tag, sequence number, peer endpoint): algorithm-chosen transmissions of a concrete bundle that
+      succeeded while the node holds that bundle -/
+  okSent : List (Nat × Nat × Eid)
   /-- the view after the previous event -/
   prev : View
 deriving Repr
@@ -247,25 +248,26 @@ def returnFail (c : Cfg) (o : Obs) : Option String :=
       else some "c13-to-prev-node"
     else none
 
-/-- A submission creates a new bundle (it is owed a sequence number of its own): what was remembered
-about earlier transmissions under this tag does not concern it. -/
-def okSentBefore (s : SpecSt) : Event → List (Nat × Eid)
-  | .submit b => s.okSent.filter (fun te => te.1 != b.tag)
-  | _ => s.okSent
-
-/-- `NoDup`: not again to a peer that already got the bundle successfully while the node holds it. -/
+/-- `NoDup`: not again to a peer that already got this very bundle (tag and sequence number: a second
+submission of the same content is another bundle, filed under a number of its own) successfully while the
+node holds it. -/
 def dupFail (c : Cfg) (s : SpecSt) (o : Obs) : Option String :=
   (chosen c o.outs).findSome? fun pbk =>
-    if (okSentBefore s o.ev).contains (pbk.2.1.tag, pbk.1.eid) then some "c13-sent-twice" else none
+    if s.okSent.contains (pbk.2.1.tag, pbk.2.1.seq, pbk.1.eid) then some "c13-sent-twice" else none
 
 /-- The remembered successes after the event: forgotten when the bundle left the store. -/
-def okSentAfter (c : Cfg) (s : SpecSt) (o : Obs) : List (Nat × Eid) :=
-  let add := (chosen c o.outs).filterMap fun pbk => if pbk.2.2 then some (pbk.2.1.tag, pbk.1.eid) else none
-  (okSentBefore s o.ev ++ add).filter fun te => o.view.items.any (fun i => i.bundle.tag == te.1)
+def okSentAfter (c : Cfg) (s : SpecSt) (o : Obs) : List (Nat × Nat × Eid) :=
+  let add := (chosen c o.outs).filterMap fun pbk =>
+    if pbk.2.2 then some (pbk.2.1.tag, pbk.2.1.seq, pbk.1.eid) else none
+  (s.okSent ++ add).filter fun te => o.view.items.any (fun i => i.bundle.tag == te.1 && i.key.seq == te.2.1)
 
-/-- Does the event (re-)create the item of this key (a new acceptance of the bundle ID)? -/
-def touchesKey (k : Key) : Event → Bool
-  | .submit b => b.key == k
+/-- Does the event (re-)create the item of this key (a new acceptance of the bundle ID)? A submitted
+bundle is filed under a sequence number the node chooses: a key of its (source, time) that did not exist
+before the event (neither in the store nor in the spray bookkeeping) is its own. -/
+def touchesKey (prev : View) (k : Key) : Event → Bool
+  | .submit b =>
+    b.key == k ||
+      (b.src == k.src && b.ts == k.ts && (prev.get k).isNone && (lookupMeta prev.spray k).isNone)
   | .receive b _ => b.key == k
   | _ => false
 
@@ -292,7 +294,7 @@ def reenableFail (c : Cfg) (s : SpecSt) (o : Obs) : Option String :=
   | none =>
     -- entries of the previous list survive unless that peer's transmission failed in this event
     (s.prev.items.map (·.key)).findSome? fun k =>
-      if touchesKey k o.ev then none else
+      if touchesKey s.prev k o.ev then none else
       match sentOfView c s.prev k, sentOfView c o.view k with
       | some before, some after =>
         if before.all (fun e => after.contains e ||
@@ -305,7 +307,7 @@ the bundle is announced again. -/
 def sprayFail (c : Cfg) (s : SpecSt) (o : Obs) : Option String :=
   if storeKept c.algo then none else
   (chosen c o.outs).findSome? fun pbk =>
-    if touchesKey pbk.2.1.key o.ev then none
+    if touchesKey s.prev pbk.2.1.key o.ev then none
     else if (lookupMeta s.prev.spray pbk.2.1.key).isNone then some "c13-spray-chose-without-bookkeeping"
     else none
 
